@@ -220,7 +220,7 @@ def worldOfTables (j : Json) : R World := do
       | none => "<oracle-miss>"
     simpleSafe := fun b => Generated.simpleSafe.contains b
     wrapper := fun b => Generated.wrapperCommands.contains b
-    wrapperArgFlags := fun b => ((Generated.wrapperFlagsWithArg.find? (·.1 == b)).map (·.2)).getD []
+    wrapperArgFlags := fun b => { flags := ((Generated.wrapperFlagsWithArg.find? (·.1 == b)).map (·.2)).getD [], duration := Generated.wrapperDurationCommands.contains b }
     resolveCd := fun t cwd => match cdT.find? (fun e => e.1 == t && e.2.1 == cwd) with
       | some e => e.2.2
       | none => "<oracle-miss>"
